@@ -51,7 +51,7 @@ def call_strategy(S, arg=None):
     st = S['st']
     arg = arg if arg is not None else st.recursive(S['leaf'], S['value_ext'], max_leaves=5)
     names = st.sampled_from(['a', 'b', 'kw', 'name', 'value', 'x1', 'é', 'zz'])
-    kwargs = st.lists(st.tuples(names, arg).map(list), max_size=3, unique_by=lambda p: p[0])
+    kwargs = named_values(st, ['a', 'b', 'kw', 'name', 'value', 'x1', 'é', 'zz'], arg, 3)
     return st.tuples(st.sampled_from(['box', 'alt', 'inner']), st.lists(arg, max_size=3), kwargs).map(
         lambda p: ['call', p[0], p[1], p[2]])
 
